@@ -74,11 +74,14 @@ class ProviderSink(object):
         self.opened.append(fp)
         return fp, start
 
+    releasing = False          # the local user has asked for release: P-DATA arrives in Sta7 and is handled by AR-6
+
     def process(self, p):
-        self.sm.current_state = D.fsm.States.STA_6
+        home = D.fsm.States.STA_7 if self.releasing else D.fsm.States.STA_6
+        self.sm.current_state = home
         self.prov.primitive = p
-        ns = self.sm.dt_2()
-        if ns != D.fsm.States.STA_6:
+        ns = self.sm.ar_6() if self.releasing else self.sm.dt_2()
+        if ns != home:
             raise RuntimeError('DT-2 treated the PDU as invalid (next state Sta%d, wrote %r)' % (ns + 1, self.sock.sent[-1:]))
         got = self.prov.drain_user()
         if got:
@@ -304,6 +307,9 @@ def main(tier='quick'):
             meta = {'kind': 'session', 'session': si, 'message': mi, 'class': cls_name, 'mode': mode, 'ctx': pcid, 'ts': str(ts), 'entity_configured': order,
                     'contexts': {str(k): [c.sop_class, str(c.supported_ts)] for k, c in ctxs.items()},
                     'cmd_frags': nc, 'data_frags': nd, 'grouping': [g[0] for g in groups]}
+            # the last message of some sessions arrives after the local release request (Sta7, AR-6)
+            sink.releasing = (mi >= 1 and si % 4 == 3)
+            meta['after_release_request'] = sink.releasing
             if feed_and_check(v, frags, groups, cmd, data, pcid, cls_name, mode, ts, meta, sink=sink) is None:
                 break
             n_replayed += 1
